@@ -172,7 +172,7 @@ class Prop:
                 d["arity"] = c.randint(0, 4)
                 d["priority"] = c.random() < 0.2
                 d["method"] = c.random() < 0.3
-                d["dispatch"] = c.choice(["same", "same", "ui", "new"]) if deferred_ok else "same"
+                d["dispatch"] = c.choice(["same", "same", "ui", "new", "fast_ui"]) if deferred_ok else "same"
             else:
                 d["dispatch"] = c.choice(["same", "same", "ui"]) if deferred_ok else "same"
                 if deferred_ok and d["dispatch"] == "same" and c.random() < 0.35:
